@@ -46,7 +46,10 @@ void CategoryFilter::parseRules(const QString &rules)
         category = QRegularExpression::escape(category);
         category.replace("\\*", ".*");
 
-        rule->category = QRegularExpression("^" + category + "$");
+        // The whole category name must match: '*' spans any character (a line feed included)
+        // and a trailing line feed is not ignored
+        rule->category = QRegularExpression("\\A" + category + "\\z",
+                                            QRegularExpression::DotMatchesEverythingOption);
         rule->type = stringToQtMsgType(match.captured(2));
         rule->typeMatch = !match.captured(2).isEmpty();
         rule->enabled = match.captured(3) == "true";
